@@ -1610,7 +1610,9 @@ namespace bloch::runtime {
         bool prevStatic = m_inStaticContext;
         bool prevCtor = m_inConstructor;
         bool prevDtor = m_inDestructor;
-        m_currentClassCtx = staticDispatchClass ? staticDispatchClass : method->owner;
+        // The body runs in the context of the class that declares the method, so that 'super',
+        // unqualified fields and statics resolve relative to it and not to the receiver's class.
+        m_currentClassCtx = method->owner ? method->owner : staticDispatchClass;
         m_inStaticContext = method->isStatic;
         m_inConstructor = false;
         m_inDestructor = false;
@@ -2893,6 +2895,11 @@ namespace bloch::runtime {
                                 ErrorCategory::Runtime, callExpr->line, callExpr->column,
                                 "instance method '" + name + "' requires an object receiver");
                         }
+                        if (method->isVirtual && receiver->cls) {
+                            auto it = receiver->cls->vtable.find(method->signature);
+                            if (it != receiver->cls->vtable.end())
+                                method = it->second;
+                        }
                     }
                     return callMethod(method, staticCls, receiver, args);
                 }
@@ -2927,6 +2934,9 @@ namespace bloch::runtime {
                 } else if (target.type == Value::Type::ClassRef && target.classRef) {
                     staticCls = target.classRef;
                     method = findMethod(staticCls, member->member, &args);
+                    // super.m(...): the base version, non-virtually, on the current object.
+                    if (viaSuper && method && !method->isStatic)
+                        receiver = currentThisObject();
                 } else if (target.type == Value::Type::ClassRef && !target.classRef &&
                            !target.className.empty()) {
                     // Static call on a generic template (e.g., List.of(x)) — attempt to
